@@ -71,9 +71,9 @@ Response(r) ==
     ELSE IF r.tables THEN [kind |-> "either", why |-> "table parameters cannot be supplied"]
     ELSE IF r.inputs = "none" THEN [kind |-> "problem", why |-> "no input series: length of the run unknown"]
     ELSE IF r.inputs \in {"unequal", "emptyone"} THEN [kind |-> "problem", why |-> "input series of unequal length"]
-    \* a run of zero timesteps: results (empty series, initial states) -- or a problem document for a model
-    \* that cannot run without a first timestep; exactly one document and no crash either way
-    ELSE IF r.inputs = "emptyall" THEN [kind |-> "either", why |-> "zero timesteps"]
+    \* a run of zero timesteps: results -- then every series is empty and the states are as initialised -- or a
+    \* problem document; exactly one document and no crash either way
+    ELSE IF r.inputs = "emptyall" THEN [kind |-> "either", why |-> "zero timesteps", ifResult |-> "empty series, states as initialised"]
     ELSE [kind |-> "result",
           logDefaults |-> (r.params # "all"),          \* every missing parameter is reported with its default
           logZeroInputs |-> (r.inputs = "some")]       \* every missing input is reported
